@@ -777,7 +777,100 @@ def host_interface_calls(run):
                 return
 
 
+def exotic_mappings(run):
+    """Host mappings with side effects on a MISSING key (collections.defaultdict, a dict subclass with __missing__,
+    ChainMap) that reach yaql unconverted (input conversion off, a context variable, a yaqlized attribute): read-only
+    expressions - the indexer with a default, get, in, containsKey, keys, len ... - leave them as they are."""
+    import collections
+    import yaql
+    from yaql import yaqlization
+
+    class Missing(dict):
+        def __missing__(self, key):
+            self[key] = ["made"]
+            return self[key]
+    def fresh():
+        return {"dd": collections.defaultdict(list, {"a": [1]}), "ms": Missing(a=1), "cm": collections.ChainMap({"a": 1}, {"b": 2}),
+                "od": collections.OrderedDict(a=1), "rec": yaqlization.yaqlize(HostRecord(m=collections.defaultdict(int, {"a": 1})))}
+    def fp(d):
+        return repr({k: (sorted(map(repr, v.items())) if hasattr(v, "items") else sorted(map(repr, vars(v)["m"].items()))) for k, v in d.items()})
+    texts = ["$.%s[zz, 0]", "$.%s.get(zz)", "$.%s.get(zz, 5)", "zz in $.%s.keys()", "$.%s.containsKey(zz)", "$.%s.len()", "$.%s.keys().toList().len()",
+             "$.%s.values().toList().len()", "$.%s.items().toList().len()", "$.%s[a, 0]", "coalesce($.%s.get(zz), 1)", "$.%s.containsValue(77)"]
+    for opts in ({"yaql.convertInputData": False}, {"yaql.convertInputData": False, "yaql.convertOutputData": False}):
+        eng = yaql.YaqlFactory().create(dict(opts))
+        for name in ("dd", "ms", "cm", "od", "rec.m"):
+            for tpl in texts:
+                text = tpl % name
+                doc = fresh()
+                ctx = yaql.create_context()
+                ctx["v"] = doc[name.split(".")[0]]
+                before = fp(doc)
+                for t, kw in ((text, {"data": doc}), (text.replace("$.%s" % name, "$v" + (".m" if name == "rec.m" else "")), {"data": None})):
+                    try:
+                        eng(t).evaluate(context=ctx, **kw)
+                    except Exception:
+                        pass
+                    run.case(("exoticmap", t, bool(kw["data"])), nontrivial=True)
+                    run.count("exotic_mapping_read")
+                    if fp(doc) != before:
+                        run.fail("violation", "a read-only expression changed a host mapping (a look-up of a missing key was made with the "
+                                              "mapping's own side-effecting subscript)",
+                                 {"expression": t, "options": opts, "mapping": name, "data_before": before[:400], "data_after": fp(doc)[:400]})
+                        return
+
+
+def ancestor_updates(run):
+    """The host's chain base <- tenant <- request: between two evaluations through `request` the host rebinds a variable in
+    `base` (or binds `$` there by evaluating on it); the second evaluation sees the new value - exactly as a twin chain
+    that was never evaluated on does."""
+    import yaql
+    eng = ec.engine()
+
+    def chain():
+        base = yaql.create_context().create_child_context()
+        base["threshold"] = 2
+        base["limits"] = {"cpu": 4}
+        tenant = base.create_child_context()
+        tenant["t"] = 1
+        request = tenant.create_child_context()
+        return base, tenant, request
+    texts = ["$threshold", "[1, 2, 3, 4].where($ > $threshold).toList()", "$limits.cpu - $.len()", "[$threshold, $t, $limits]", "$", "$.len() + $threshold"]
+    for text in texts:
+        used, twin = chain(), chain()
+        stmt = eng(text)
+        data = [1, 2, 3]
+        for step, (nm, val) in enumerate([(None, None), ("threshold", 3), ("limits", {"cpu": 9}), ("threshold", None), ("$", [7])]):
+            for b, _, _ in (used, twin):
+                if nm == "$":
+                    eng("1").evaluate(data=val, context=b)
+                elif nm:
+                    b[nm] = val
+            outs = []
+            for which, (b, t, r) in (("used", used), ("twin", twin)):
+                for via in (r, t):
+                    try:
+                        outs.append((which, repr(stmt.evaluate(data=data, context=via.create_child_context()) if which == "used" or step == 4
+                                                 else eng(text).evaluate(data=data, context=via.create_child_context()))))
+                    except Exception as e:
+                        outs.append((which, "exc:" + type(e).__name__))
+                try:
+                    outs.append((which + "-nodata", repr(eng(text).evaluate(context=t.create_child_context()))))
+                except Exception as e:
+                    outs.append((which + "-nodata", "exc:" + type(e).__name__))
+            used_o = [o for w, o in outs if w.startswith("used")]
+            twin_o = [o for w, o in outs if w.startswith("twin")]
+            run.case(("ancestor", text, step), nontrivial=step > 0)
+            run.count("ancestor_update_step")
+            if used_o != twin_o:
+                run.fail("violation", "after the host changed a variable in an ancestor context, an evaluation through a context that was "
+                                      "evaluated on before does not see the change (differs from an identical chain never used)",
+                         {"expression": text, "step": step, "changed": nm, "observed": repr(used_o)[:400], "required": repr(twin_o)[:400]})
+                return
+
+
 def oracle(run, deep):
+    exotic_mappings(run)
+    ancestor_updates(run)
     host_interface_calls(run)
     no_context_histories(run)
     hidden_parameter_writers(run)
